@@ -31,6 +31,34 @@ type Job struct {
 	ShrinkS  float64    `json:"shrink_s"`
 	Scenario string     `json:"scenario,omitempty"`
 	PerRun   bool       `json:"per_run,omitempty"`
+	// Avoid: while minimising, a candidate whose failure matches one of
+	// these (check id + substrings: the recorded known findings) is
+	// rejected, so that an unlisted violation cannot shrink into a listed one.
+	Avoid []AvoidPat `json:"avoid,omitempty"`
+}
+
+type AvoidPat struct {
+	Check    string   `json:"check"`
+	Contains []string `json:"contains"`
+}
+
+func avoided(job *Job, f *FailureRec) bool {
+	hay := f.Detail + " " + f.Site + " " + f.Task + " " + f.Stack
+	for _, a := range job.Avoid {
+		if a.Check != f.Check {
+			continue
+		}
+		ok := true
+		for _, c := range a.Contains {
+			if !strings.Contains(hay, c) {
+				ok = false
+			}
+		}
+		if ok {
+			return true
+		}
+	}
+	return false
 }
 
 type Summary struct {
@@ -80,6 +108,11 @@ func TestWorker(t *testing.T) {
 	if os.Getenv("VERIF_LOG") == "" {
 		log.SetOutput(io.Discard)
 	}
+	defer func() {
+		if recDir != "" {
+			os.RemoveAll(recDir)
+		}
+	}()
 	b, err := os.ReadFile(jf)
 	if err != nil {
 		t.Fatal(err)
@@ -272,7 +305,7 @@ func workerShrink(t *testing.T, job *Job, emit func(any)) {
 	fails := func(pl any, sch []uint32) *RunResult {
 		tries++
 		r := Execute(t, job.Property, sc, rp.Seed, job.Tier, ExecOpts{Plan: pl, Sched: nz(sch), CfgTape: nz(cfgt), Keep: true})
-		if fo := firstOwned(r); fo != nil && fo.Kind+"|"+fo.Check == want {
+		if fo := firstOwned(r); fo != nil && fo.Kind+"|"+fo.Check == want && !avoided(job, fo) {
 			return r
 		}
 		return nil
@@ -341,7 +374,7 @@ func workerShrink(t *testing.T, job *Job, emit func(any)) {
 	// final: re-run with trace to produce the human-readable schedule
 	final := Execute(t, job.Property, sc, rp.Seed, job.Tier, ExecOpts{Plan: plan, Sched: nz(sched), CfgTape: nz(cfgt), Trace: true, Keep: true})
 	final.Sched = sched
-	if fo := firstOwned(final); fo == nil || fo.Kind+"|"+fo.Check != want {
+	if fo := firstOwned(final); fo == nil || fo.Kind+"|"+fo.Check != want || avoided(job, fo) {
 		final = best
 	}
 	if len(final.Trace) > 400 {
